@@ -12,10 +12,11 @@ Definition upto_tcc (sid : Z) (a b : pkt) : Prop :=
   others sid (h_exts (p_hdr a)) = others sid (h_exts (p_hdr b)) /\
   (h_ext (p_hdr a) = true -> h_ext (p_hdr b) = true /\ h_profile (p_hdr b) = h_profile (p_hdr a)).
 
-(* scope: RFC 8285 extension profile (or none); packets of the stream carry at most 1460 bytes *)
+(* scope: RFC 8285 extension profile (or none); packets of the stream carry at most 1460 bytes
+   and, if they use the legacy padding form, a padding count within the payload *)
 Definition Pok_c (c : cfg) (p : pkt) : Prop :=
   (h_ext (p_hdr p) = false \/ h_profile (p_hdr p) = PROFILE_ONE \/ h_profile (p_hdr p) = PROFILE_TWO) /\
-  (same_stream c p = true -> p_len p <= 1460).
+  (same_stream c p = true -> p_len p <= 1460 /\ legacy_overflow p = false).
 
 Lemma upto_tcc_refl sid p : upto_tcc sid p p.
 Proof. unfold upto_tcc; auto. Qed.
@@ -43,20 +44,22 @@ Proof.
         destruct Hprof as [Hx|Hx]; [unfold p_hdr in *; congruence|exact Hx].
       * left. unfold set_extension in Hset. fold (p_hdr p) in Hset. rewrite E in Hset. cbn in Hset.
         inversion Hset; subst; reflexivity.
-    + unfold same_stream, h_ssrc, p_len, p_hdr in *; cbn [fst snd]. rewrite F1. exact Hlen.
+    + unfold same_stream, legacy_overflow, legacy_form, last_byte, p_pid, h_ssrc, h_padding, h_padsize, p_len, p_hdr in *; cbn [fst snd]. rewrite F1. exact Hlen.
 Qed.
 
-Lemma np_fail_scope c dc p : Pok_c c p -> same_stream c p = true -> np_fail dc p = false.
+Lemma np_fail_scope c dc rtx p : Pok_c c p -> same_stream c p = true -> np_fail dc rtx p = false.
 Proof.
   intros [_ Hlen] Hs. unfold np_fail. destruct (negb dc); [|reflexivity]. cbn.
-  specialize (Hlen Hs). destruct (p_len p >? 1460) eqn:E; [|reflexivity]. lia.
+  destruct (Hlen Hs) as [Hl Hov]. rewrite Hov, Bool.andb_false_r, Bool.orb_false_r.
+  destruct (p_len p >? 1460) eqn:E; [|reflexivity]. lia.
 Qed.
 
 Lemma encode_scope c nfec buf : Forall (Pok_c c) (encode c nfec buf).
 Proof.
   unfold encode. destruct (consecutive _); [|constructor].
-  apply Forall_forall. intros x Hx. apply repeat_spec in Hx. subst.
-  split; [left; reflexivity|]. intros _. unfold p_len, fec_pkt; cbn. lia.
+  apply Forall_forall. intros x Hx. apply in_flat_map in Hx as (j & _ & Hx).
+  destruct (covers_legacy _ _ _ _); [contradiction|]. destruct Hx as [<-|[]].
+  split; [left; reflexivity|]. intros _. split; [unfold p_len, fec_pkt; cbn; lia|reflexivity].
 Qed.
 
 (* every library member's write closure (as modelled) is transparent in scope *)
@@ -88,7 +91,7 @@ Qed.
 Lemma rd_of_transparent c m : rtransparent (option hdr) hdr rparse (tcc_ext c) (rd_of c m).
 Proof.
   unfold rd_of. cbv zeta.
-  destruct (fst m =? 1). { destruct (c_nack c); [apply rtransparent_parse_record|apply rtransparent_id]. }
+  destruct (fst m =? 1). { destruct (bound_of c _); [apply rtransparent_parse_record|apply rtransparent_id]. }
   destruct ((fst m =? 3) || (fst m =? 7) || (fst m =? 10)). { apply rtransparent_parse_record. }
   destruct (fst m =? 5). { apply rtransparent_twcc_sender. }
   destruct (fst m =? 9). { apply rtransparent_stats. }
@@ -98,7 +101,8 @@ Qed.
 Lemma crd_of_transparent c m : rtransparent (option hdr) hdr rparse (tcc_ext c) (crd_of m).
 Proof.
   unfold crd_of. cbv zeta.
-  destruct ((fst m =? 2) || (fst m =? 3) || (fst m =? 10) || (fst m =? 14)). { apply rtransparent_parse_record. }
+  destruct ((fst m =? 2) || (fst m =? 3) || (fst m =? 14)). { apply rtransparent_parse_record. }
+  destruct (fst m =? 10). { apply rtransparent_parse_nocache. }
   destruct (fst m =? 8). { apply rtransparent_rtpfb. }
   destruct (fst m =? 9). { apply rtransparent_stats_rtcp. }
   apply rtransparent_id.
